@@ -309,6 +309,9 @@ func runC20(p c20Plan, c *stats.Case) error {
 	pendingPing := map[enode.ID][][]byte{} // radii of pings whose asynchronous processing was not awaited
 	present := map[enode.ID]bool{}         // ids in the table (entries or replacements); harness nodes never leave during a case
 	refreshPresent := func() {
+		for id := range present {
+			delete(present, id) // membership as it is now: on a loaded machine a long case can outlast the table's liveness timers
+		}
 		for _, b := range tab.VerifSnapshot().Buckets {
 			for _, e := range b.Entries {
 				present[e.ID] = true
@@ -327,6 +330,7 @@ func runC20(p c20Plan, c *stats.Case) error {
 		}
 		n := nodes[op.NodeIdx]
 		id := n.ID()
+		refreshPresent()
 		enrSeq := uint64(1)
 		if op.SeqBump && op.NodeIdx >= len(p.Table) {
 			enrSeq = n.Seq() + 5
